@@ -1378,15 +1378,66 @@ fn main() {
     }
 }
 
-/// --unsafescan file...: every `unsafe` block with its enclosing fn, closure depth and the call the closure is an argument of
+/// --unsafescan file...: every `unsafe` block with its enclosing fn, closure depth, the call(s) the enclosing closure is handed to, and the
+/// calls of the enclosing fn that textually end before the site.
+/// A closure that is bound by `let name = <closure>;` is attributed to every call it is passed to by name (`a|b`, sorted); if the name is used
+/// in any other way the attribution is `?`.
 fn unsafescan(repo: &str, files: &[String]) {
-    struct V<'a> { src: &'a SourceFile, fns: Vec<String>, calls: Vec<String>, closure_depth: usize, closure_call: Vec<String> }
+    /// per fn: (end offset, callee) of every call, and for every ident passed as a direct argument the callees / other uses
+    struct Pre<'a> { src: &'a SourceFile, blocks: Vec<usize>, calls: Vec<(usize, String, Vec<usize>)>, arg_uses: Vec<(String, String)>, path_uses: std::collections::HashMap<String, usize> }
+    impl<'a, 'ast> Visit<'ast> for Pre<'a> {
+        fn visit_expr_call(&mut self, c: &'ast syn::ExprCall) {
+            let name = if let Expr::Path(p) = &*c.func { p.path.segments.last().map(|s| s.ident.to_string()).unwrap_or_default() } else { String::new() };
+            let (_, e) = self.src.range(c.span());
+            self.calls.push((e, name.clone(), self.blocks.clone()));
+            for a in c.args.iter() { if let Expr::Path(p) = a { if let Some(id) = p.path.get_ident() { self.arg_uses.push((id.to_string(), name.clone())); } } }
+            visit::visit_expr_call(self, c);
+        }
+        fn visit_expr_method_call(&mut self, m: &'ast syn::ExprMethodCall) {
+            let (_, e) = self.src.range(m.span());
+            self.calls.push((e, m.method.to_string(), self.blocks.clone()));
+            for a in m.args.iter() { if let Expr::Path(p) = a { if let Some(id) = p.path.get_ident() { self.arg_uses.push((id.to_string(), m.method.to_string())); } } }
+            visit::visit_expr_method_call(self, m);
+        }
+        fn visit_expr_path(&mut self, p: &'ast syn::ExprPath) {
+            if let Some(id) = p.path.get_ident() { *self.path_uses.entry(id.to_string()).or_insert(0) += 1; }
+        }
+        fn visit_block(&mut self, b: &'ast syn::Block) {
+            let (s, _) = self.src.range(b.span());
+            self.blocks.push(s);
+            visit::visit_block(self, b);
+            self.blocks.pop();
+        }
+        fn visit_expr_closure(&mut self, c: &'ast syn::ExprClosure) {
+            // a closure body runs at another time: its calls never precede a site outside it
+            let (s, _) = self.src.range(c.span());
+            self.blocks.push(s);
+            visit::visit_expr_closure(self, c);
+            self.blocks.pop();
+        }
+    }
+    struct V<'a> { src: &'a SourceFile, fns: Vec<String>, pres: Vec<(Vec<(usize, String, Vec<usize>)>, Vec<(String, String)>, std::collections::HashMap<String, usize>)>, blocks: Vec<usize>,
+                   calls: Vec<String>, closure_depth: usize, closure_call: Vec<String>, let_closure: Option<(usize, String)> }
+    impl<'a> V<'a> {
+        fn enter_fn(&mut self, name: String, block: &syn::Block) {
+            let mut p = Pre { src: self.src, blocks: vec![], calls: vec![], arg_uses: vec![], path_uses: Default::default() };
+            p.visit_block(block);
+            self.pres.push((p.calls, p.arg_uses, p.path_uses));
+            self.fns.push(name);
+        }
+        fn leave_fn(&mut self) { self.fns.pop(); self.pres.pop(); }
+    }
     impl<'a, 'ast> Visit<'ast> for V<'a> {
         fn visit_expr_unsafe(&mut self, u: &'ast syn::ExprUnsafe) {
             let (s, e) = self.src.range(u.span());
             let txt = norm_ws(&self.src.text[s..e]);
-            println!("{}\t{}\t{}\t{}\t{}\t{}", self.src.rel, self.src.line_of(s), self.fns.last().cloned().unwrap_or_default(), self.closure_depth,
-                self.closure_call.last().cloned().unwrap_or_default(), txt);
+            // calls that end before the site and whose enclosing blocks all enclose the site too (a call in a sibling branch does not precede it)
+            let chain = self.blocks.clone();
+            let before: Vec<String> = self.pres.last().map(|p| p.0.iter()
+                .filter(|(end, _, bl)| *end <= s && bl.len() <= chain.len() && bl.iter().zip(chain.iter()).all(|(a, b)| a == b))
+                .map(|(_, n, _)| n.clone()).collect()).unwrap_or_default();
+            println!("{}\t{}\t{}\t{}\t{}\t{}\t{}", self.src.rel, self.src.line_of(s), self.fns.last().cloned().unwrap_or_default(), self.closure_depth,
+                self.closure_call.last().cloned().unwrap_or_default(), txt, before.join(","));
             visit::visit_expr_unsafe(self, u);
         }
         fn visit_expr_call(&mut self, c: &'ast syn::ExprCall) {
@@ -1400,30 +1451,61 @@ fn unsafescan(repo: &str, files: &[String]) {
             visit::visit_expr_method_call(self, m);
             self.calls.pop();
         }
+        fn visit_block(&mut self, b: &'ast syn::Block) {
+            let (s, _) = self.src.range(b.span());
+            self.blocks.push(s);
+            visit::visit_block(self, b);
+            self.blocks.pop();
+        }
+        fn visit_local(&mut self, l: &'ast syn::Local) {
+            if let (syn::Pat::Ident(pi), Some(init)) = (&l.pat, &l.init) {
+                if let Expr::Closure(c) = &*init.expr {
+                    let (cs, _) = self.src.range(c.span());
+                    self.let_closure = Some((cs, pi.ident.to_string()));
+                }
+            }
+            visit::visit_local(self, l);
+        }
         fn visit_expr_closure(&mut self, c: &'ast syn::ExprClosure) {
             self.closure_depth += 1;
-            // the nearest enclosing call that is not a combinator on the closure's own result
-            let call = self.calls.iter().rev().find(|n| *n != "boxed" && *n != "detach").cloned().unwrap_or_default();
+            let (cs, _) = self.src.range(c.span());
+            let call = match self.let_closure.take() {
+                Some((at, name)) if at == cs => {
+                    // bound to a name: the calls it is handed to by that name; any other use of the name makes the attribution unknown
+                    let (_, arg_uses, path_uses) = self.pres.last().cloned().unwrap_or_default();
+                    let mut cs: Vec<String> = arg_uses.iter().filter(|(id, _)| *id == name).map(|(_, callee)| callee.clone()).collect();
+                    let n_args = cs.len();
+                    cs.sort(); cs.dedup();
+                    if n_args == 0 || path_uses.get(&name).cloned().unwrap_or(0) != n_args { "?".to_string() } else { cs.join("|") }
+                }
+                other => {
+                    self.let_closure = other;
+                    // the nearest enclosing call that is not a combinator on the closure's own result
+                    self.calls.iter().rev().find(|n| *n != "boxed" && *n != "detach").cloned().unwrap_or_default()
+                }
+            };
             self.closure_call.push(call);
+            self.blocks.push(cs);
             visit::visit_expr_closure(self, c);
+            self.blocks.pop();
             self.closure_call.pop();
             self.closure_depth -= 1;
         }
         fn visit_impl_item_fn(&mut self, f: &'ast syn::ImplItemFn) {
-            self.fns.push(f.sig.ident.to_string());
+            self.enter_fn(f.sig.ident.to_string(), &f.block);
             visit::visit_impl_item_fn(self, f);
-            self.fns.pop();
+            self.leave_fn();
         }
         fn visit_item_fn(&mut self, f: &'ast syn::ItemFn) {
-            self.fns.push(f.sig.ident.to_string());
+            self.enter_fn(f.sig.ident.to_string(), &f.block);
             visit::visit_item_fn(self, f);
-            self.fns.pop();
+            self.leave_fn();
         }
         fn visit_item_impl(&mut self, i: &'ast syn::ItemImpl) {
             if i.unsafety.is_some() {
                 let (s, e) = self.src.range(i.span());
                 let hdr = norm_ws(&self.src.text[s..e]);
-                println!("{}\t{}\t<impl>\t0\t\t{}", self.src.rel, self.src.line_of(s), hdr);
+                println!("{}\t{}\t<impl>\t0\t\t{}\t", self.src.rel, self.src.line_of(s), hdr);
             }
             visit::visit_item_impl(self, i);
         }
@@ -1434,7 +1516,7 @@ fn unsafescan(repo: &str, files: &[String]) {
     }
     for f in files {
         let src = SourceFile::load(repo, f);
-        let mut v = V { src: &src, fns: vec![], calls: vec![], closure_depth: 0, closure_call: vec![] };
+        let mut v = V { src: &src, fns: vec![], pres: vec![], blocks: vec![], calls: vec![], closure_depth: 0, closure_call: vec![], let_closure: None };
         v.visit_file(&src.ast);
     }
 }
